@@ -73,22 +73,7 @@ func checkC02(r *Run) {
 	if f := r.fn(bankK + "BurnCoins"); f != nil {
 		checkMintBurn(r, f, "BurnCoins", "SubtractCoins", "Deflate", "burner")
 	}
-	if f := r.fn(bankK + "SendCoins"); f != nil {
-		sub := r.oneCall("C02-R3", "SendCoins", f, bankK+"SubtractCoins")
-		add := r.oneCall("C02-R3", "SendCoins", f, bankK+"AddCoins")
-		if sub != nil && add != nil {
-			st, at := P.callTerm(sub).String(), P.callTerm(add).String()
-			r.Check(st == bankK+"SubtractCoins(param:k, param:ctx, param:fromAddr, param:amt)", "C02-R3", "SendCoins/debit", P.InstrPos(sub), st, "debit is "+st+" ; required SubtractCoins(k, ctx, fromAddr, amt)")
-			r.Check(at == bankK+"AddCoins(param:k, param:ctx, param:toAddr, param:amt)", "C02-R3", "SendCoins/credit", P.InstrPos(add), at, "credit is "+at+" ; required AddCoins(k, ctx, toAddr, amt)")
-			r.requireAtoms("C02-R3", "SendCoins/credit", add, P.Guards(add, 0), []req{{"debit-succeeded", `^isnil\(` + q(bankK+"SubtractCoins(param:k, param:ctx, param:fromAddr, param:amt)#1") + `\)$`}})
-			for i, ret := range P.successReturns(f, 0, "nil") {
-				r.requireAtoms("C02-R3", fmt.Sprintf("SendCoins/success-return#%d", i), ret, P.Guards(ret, 0), []req{
-					{"debit-ok", `^isnil\(` + q(bankK+"SubtractCoins(")},
-					{"credit-ok", `^isnil\(` + q(bankK+"AddCoins(")},
-				})
-			}
-		}
-	}
+	sendCoinsShape(r, "C02-R3")
 	// the three module-send wrappers forward their amount and resolve the module address themselves
 	for _, w := range []struct{ fn, from, to string }{
 		{"SendCoinsFromModuleToAccount", `(x/auth/keeper.Keeper).GetModuleAddress(param:k, param:senderModule)`, `param:recipientAddr`},
@@ -275,4 +260,26 @@ func checkMintPair(r *Run, rule string) {
 	r.requireAtoms(rule, "mint/forward", s, P.Guards(s, 0), []req{{"mint-succeeded", `^isnil\(x/pos/types\.AuthKeeper\.MintCoins\(`}})
 	// and conversely: whatever was minted into the pool is always forwarded (nothing may stay behind in the pool)
 	r.mustFollowEdge(rule, "mint/minted=>forwarded", f, `^isnil\(x/pos/types\.AuthKeeper\.MintCoins\(`, func(in ssa.Instruction) bool { return in == ssa.Instruction(s) }, nil, "SendCoinsFromModuleToAccount (the award would stay in the staked pool, unbacked by any stake)")
+}
+
+// sendCoinsShape: a transfer debits the sender and credits the recipient by the same amount, through SubtractCoins
+// then AddCoins (each re-reads the balance it changes) (C02-R3, C17-R10).
+func sendCoinsShape(r *Run, rule string) {
+	P := r.P
+	if f := r.fn(bankK + "SendCoins"); f != nil {
+		sub := r.oneCall(rule, "SendCoins", f, bankK+"SubtractCoins")
+		add := r.oneCall(rule, "SendCoins", f, bankK+"AddCoins")
+		if sub != nil && add != nil {
+			st, at := P.callTerm(sub).String(), P.callTerm(add).String()
+			r.Check(st == bankK+"SubtractCoins(param:k, param:ctx, param:fromAddr, param:amt)", rule, "SendCoins/debit", P.InstrPos(sub), st, "debit is "+st+" ; required SubtractCoins(k, ctx, fromAddr, amt)")
+			r.Check(at == bankK+"AddCoins(param:k, param:ctx, param:toAddr, param:amt)", rule, "SendCoins/credit", P.InstrPos(add), at, "credit is "+at+" ; required AddCoins(k, ctx, toAddr, amt)")
+			r.requireAtoms(rule, "SendCoins/credit", add, P.Guards(add, 0), []req{{"debit-succeeded", `^isnil\(` + q(bankK+"SubtractCoins(param:k, param:ctx, param:fromAddr, param:amt)#1") + `\)$`}})
+			for i, ret := range P.successReturns(f, 0, "nil") {
+				r.requireAtoms(rule, fmt.Sprintf("SendCoins/success-return#%d", i), ret, P.Guards(ret, 0), []req{
+					{"debit-ok", `^isnil\(` + q(bankK+"SubtractCoins(")},
+					{"credit-ok", `^isnil\(` + q(bankK+"AddCoins(")},
+				})
+			}
+		}
+	}
 }
